@@ -95,6 +95,63 @@ def run_hists(ctx, hists):
                 break
 
 
+def busy_histories(ctx, count, only=None):
+    """workers that are busy with a seed when the pause arrives (they look at their control channels only when the work is done), controllers
+    calling Pause / Resume meanwhile; when everybody is free again and every call has had time to return: nobody is blocked, and either the
+    pipeline is paused and every worker waits, or it is not and every worker runs"""
+    r = ctx.rng
+    templates = [(2, [("busy", 1), "pause", "resume", "pause", ("free", 1), "resume"]),
+                 (1, [("busy", 0), "pause", ("free", 0), "resume"]),
+                 (2, [("busy", 1), "pause", "resume", ("free", 1)]),
+                 (3, [("busy", 0), ("busy", 2), "pause", "resume", "pause", ("free", 0), "pause", ("free", 2), "resume", "resume"])]
+    hists = list(templates) if only is None else [only]
+    for _ in range(count):
+        n = r.choice([1, 2, 3, 4])
+        busy = r.sample(range(n), r.randrange(1, n + 1))
+        ops = [("busy", i) for i in busy]
+        frees = [("free", i) for i in busy]
+        r.shuffle(frees)
+        calls = [r.choice(["pause", "resume"]) for _ in range(r.randrange(2, 8))]
+        # frees are spread among the calls
+        pos = sorted(r.randrange(len(calls) + 1) for _ in frees)
+        k = 0
+        for j in range(len(calls) + 1):
+            while k < len(frees) and pos[k] == j:
+                ops.append(frees[k]); k += 1
+            if j < len(calls):
+                ops.append(calls[j])
+        ops += ["resume"]
+        hists.append((n, ops))
+    acks = [ctx.facts.get("Pause", {}).get(w + "Ack") for w in ("preprocessor", "archiver", "postprocessor", "finisher")]
+    ack = "cancellable" if all(a == "cancellable" for a in acks) else "bare"
+    lines, idx = [], []
+    for n, ops in hists:
+        lines.append(json.dumps({"op": "init", "n": n, "ack": ack}))
+        lines += [json.dumps({"op": o} if isinstance(o, str) else {"op": o[0], "i": o[1]}) for o in ops]
+        idx.append(len(lines))
+    impl, model = ctx.pair("pause", lines, timeout=3000)
+    pos = 0
+    for (n, ops), end in zip(hists, idx):
+        a, b = impl[pos:end], model[pos:end]
+        pos = end
+        ctx.case("busy%d%s" % (n, ops), True)
+        ctx.count("busy-histories")
+        rp = {"domain": "pause-busy", "n": n, "ops": ops, "impl": a}
+        if len(a) != len(ops) + 1 or any(x.startswith("harness-error") for x in a):
+            ctx.violation("busy-worker history %s: the harness did not answer every call: %s" % (ops, a[-1:] if a else ""), rp); continue
+        st = parse(a[-1])
+        if int(st["pending"]) != 0:
+            ctx.violation("a Pause / Resume call is blocked forever after every worker is free again (history %s, state %s)" % (ops, a[-1]), rp); continue
+        if st["paused"] == "true" and any(w == "run" for w in st["workers"]):
+            ctx.violation("the pipeline is flagged paused, no call is in progress, but a worker runs (history %s, state %s)" % (ops, a[-1]), rp); continue
+        if st["paused"] != "true" and any(w == "ack" for w in st["workers"]):
+            ctx.violation("a worker waits for resume although the pipeline is not paused and no call is in progress (history %s, state %s)" % (ops, a[-1]), rp); continue
+        for i, (x, y) in enumerate(zip(a, b)):
+            if x != y:
+                ctx.disagree({"n": n, "ops": ops[:i]}, x, y)
+                break
+
+
 def corpus(ctx):
     d = os.path.join(core.VERIF, "corpus", "C14")
     out = []
@@ -127,9 +184,62 @@ def watcher_stop(ctx):
                       {"domain": "diskwatch", "scenario": "stopwhilelow", "impl": out[0] if out else ""})
 
 
+def real_stages(ctx):
+    """the four real stage worker pools in a whole crawl: an operator pauses (idle pipeline / mid-crawl), nothing is fetched while paused,
+    Resume returns, and the crawl then runs to the end"""
+    from . import e2e
+    r = ctx.rng
+    scns = []
+    for k in range(6 if ctx.thorough() else 2):
+        pages = {}
+        seeds = []
+        for i in range(3):
+            assets = ["/pr%d/a%d.png" % (i, j) for j in range(r.randrange(2, 6))]
+            pages["/pr%d/" % i] = {"ctype": "text/html", "body": {"kind": "html", "assets": assets, "outlinks": []}, "delayMs": 40}
+            for a in assets:
+                pages[a] = {"ctype": "image/png", "body": {"kind": "png", "size": 300, "seed": 3}, "delayMs": r.choice([30, 120])}
+            seeds.append("/pr%d/" % i)
+        idle_first = k % 2 == 0
+        # "idle": fewer seeds than workers, so most workers of every stage sit waiting for work when the pause arrives
+        scns.append({"seeds": seeds[:1] if idle_first else seeds, "site": pages, "useHQ": True,
+                     "cfg": {"workers": 4 if idle_first else r.choice([1, 2]), "maxConcurrentAssets": 1, "maxRetry": 0, "httpTimeout": 3, "hqBatchSize": 1},
+                     "stop": {"when": "pauseresume", "n": r.randrange(0, 3) if idle_first else r.randrange(1, 5), "settleMs": 700, "holdMs": 600, "timeoutMs": 40000},
+                     "moment": "idle" if idle_first else "busy"})
+    for scn, (rep, err) in zip(scns, e2e.run_many(scns, timeout=120, workers=6)):
+        judge_real(ctx, scn, rep, err)
+
+
+def real_stages_judge(ctx, scn):
+    from . import e2e
+    rep, err = e2e.run_one(scn, timeout=120)
+    judge_real(ctx, scn, rep, err)
+
+
+def judge_real(ctx, scn, rep, err):
+    if True:
+        rp = {"domain": "e2e", "scenario": scn}
+        ctx.case("pr" + json.dumps([scn["cfg"], scn["moment"], scn["stop"]["n"]]), True)
+        ctx.count("real-stages:" + scn["moment"])
+        if rep.get("died") or rep.get("harnessTimeout") or rep.get("harnessLine"):
+            ctx.violation("the crawler crashed / never came back in a pause-resume crawl (%s): %s" % (scn["moment"], rep.get("panic") or err[-300:]), rp); return
+        if rep.get("pauseTimedOut"):
+            ctx.violation("Pause() did not return within 10 s (%s pipeline)" % scn["moment"], rp); return
+        if rep.get("resumeHung"):
+            ctx.violation("Resume() had not returned after 10 s: a stage worker never acknowledged the pause (%s pipeline, %s)" % (scn["moment"], scn["cfg"]), rp); return
+        if rep.get("requestsWhilePaused"):
+            ctx.violation("%d request(s) were sent while the pipeline was paused (after 0.7 s of settling; %s pipeline)" % (rep["requestsWhilePaused"], scn["moment"]), rp); return
+        if rep.get("stillPausedAfterResume"):
+            ctx.violation("the pipeline is still flagged paused after Resume() returned", rp); return
+        if not rep.get("drained"):
+            ctx.violation("after Resume() the crawl did not run to its end (%s pipeline): %s" % (scn["moment"], {k: v for k, v in rep.items() if k in ("stopHung", "blocked")}), rp); return
+        if rep.get("stopHung"):
+            ctx.violation("controler.Stop() hung after a pause-resume crawl", rp)
+
+
 def run(ctx):
     r = ctx.rng
     watcher_stop(ctx)
+    real_stages(ctx)
     hs = corpus(ctx)
     if ctx.thorough():
         hs += list(histories(7, [0, 1, 2, 3]))
@@ -138,6 +248,7 @@ def run(ctx):
         hs += list(histories(5, [0, 1, 2, 3]))
         hs += [(r.choice([1, 2, 4]), [r.choice(["pause", "resume"]) for _ in range(12)]) for _ in range(60)]
     run_hists(ctx, hs)
+    busy_histories(ctx, 400 if ctx.thorough() else 30)
     scenarios(ctx, 60 if ctx.thorough() else 10)
     ctx.sample({"workers": hs[-1][0], "calls": hs[-1][1]})
     ctx.cov["exhaustive"] = False
@@ -150,6 +261,12 @@ def run(ctx):
 
 def replay(ctx, doc):
     rp = doc.get("replay", doc)
+    if rp.get("domain") == "pause-busy":
+        busy_histories(ctx, 0, only=(rp["n"], [o if isinstance(o, str) else tuple(o) for o in rp["ops"]]))
+        return
+    if rp.get("domain") == "e2e" and "scenario" in rp:
+        real_stages_judge(ctx, rp["scenario"])
+        return
     if "scenario" in rp:
         scenarios(ctx, rp.get("rounds", 10))
     if "ops" in rp:
